@@ -41,21 +41,19 @@ def nontrivial(case):
 
 
 def extra(ctx, state):
+    """The witnesses of the repaired finding F23 (undefined start symbol captured by a generated helper
+    name) must now be rejected by the front end — and by the model, which follows the fix."""
     reps = common.impl_lines("c09", START_CLASH_WITNESSES)
     mods = common.model_lines(START_CLASH_WITNESSES)
-    orc = common.model_lines([oracle_req(c, r) for c, r in zip(START_CLASH_WITNESSES, reps)])
-    hits = [c for c, r, m, o in zip(START_CLASH_WITNESSES, reps, mods, orc)
-            if r == m and o.startswith("fail helper-name-clash")]
-    odd = [(c, r, m, o) for c, r, m, o in zip(START_CLASH_WITNESSES, reps, mods, orc) if r != m]
-    state["coverage_extra"] = {"start_clash_witnesses": len(START_CLASH_WITNESSES), "start_clash_reproduced": len(hits)}
-    if hits:
-        ctx.known.append(f"id=F23 {START_CLASH_TEXT} (reproduced on {len(hits)} witness(es), e.g. `{hits[0]}`; "
-                         f"theorem canon_start_clash_counterexample)")
+    odd = [(c, r, m) for c, r, m in zip(START_CLASH_WITNESSES, reps, mods) if r != "rejected" or m != "rejected"]
+    state["coverage_extra"] = {"start_clash_witnesses": len(START_CLASH_WITNESSES),
+                               "start_clash_rejected": len(START_CLASH_WITNESSES) - len(odd)}
     if odd:
-        c, r, m, o = odd[0]
-        common.violation(ctx, "C09_tie_startclash.json", {
-            "kind": "model and implementation disagree on a start-clash witness", "case": c,
-            "impl_reply": r, "model_reply": m, "oracle": o, "broken": "correspondence D:c09"}, no_input=True)
+        c, r, m = odd[0]
+        orc = common.model_lines([oracle_req(c, r)])[0] if r.startswith("ok") else "n/a"
+        common.violation(ctx, "C09_startclash.json", {
+            "kind": "a grammar with an undefined start symbol that equals a generated helper name is not rejected (finding F23 is back)",
+            "case": c, "impl_reply": r, "model_reply": m, "oracle": orc}, no_input=not orc.startswith("fail"))
 
 
 SPEC = {
@@ -73,7 +71,7 @@ SPEC = {
     "assumptions": [
         "the Lean functions of Model/Canon.lean mirror transform_productions and generate_name; agreement (production list with names and attributes) is observed on the explored grammars",
         "terminals are `\"t<n>\"` string literals in scanner state INITIAL; a terminal is one natural number in the model; user types, member names and lookahead expressions do not occur",
-        "the theorems' hypothesis `st ∈ variableNames E` (the start symbol is defined or used) is necessary: without it the property fails on the real code (finding F23, witnesses checked on every run)",
+        "the theorems' hypothesis `st ∈ variableNames E` (the start symbol is defined or used) is necessary (canon_start_clash_counterexample); the front end establishes it since the fix: for finding F23 (a grammar whose start symbol has no production is rejected; witnesses checked on every run)",
     ],
 }
 
@@ -81,7 +79,7 @@ CLAIM = {
     "category": "proof",
     "text": "Lean theorems about the model `canon` (a step-by-step mirror of transform_productions: extract_options, then the loop separate_alternatives ; eliminate_repetitions (LL and LALR variants) ; eliminate_options ; eliminate_groups, generate_name with its numeric-suffix rule, finalize): every step preserves YieldE for all factor strings that do not mention the new helper (step_preserves_lang family), canon_preserves_lang (for ALL EBNF grammars and both grammar types, whenever the start symbol is defined or used), canon_generate_name_not_mem, generate_name_total (the |exclusions|+1 candidates always contain a free name), helper_fresh. Termination of the transformation loops is not proved (the model takes fuel; `fuel-exhausted` was never observed). Tied to the code by exact differential runs through the real PAR front end; every implementation reply is also judged by the oracle (member on all strings ≤ n, helper-name clash detector).",
     "design_ref": "DESIGN.md §6 C09",
-    "note": "Trusted: Lean kernel, faithfulness of the hand-written model as observed by the differential run, harness (PAR rendering of the encoded grammar) and orchestrator. New finding F23 (start symbol missing from variable_names) is reproduced on its witnesses on every run and proved as canon_start_clash_counterexample.",
+    "note": "Trusted: Lean kernel, faithfulness of the hand-written model as observed by the differential run, harness (PAR rendering of the encoded grammar) and orchestrator. Finding F23 (start symbol missing from variable_names) was found here, proved as canon_start_clash_counterexample and repaired by a fix: commit; its witnesses are re-run on every check.",
     "technique": "Lean 4 proof over hand-written model + differential correspondence check",
 }
 
